@@ -28,7 +28,7 @@ def gen_scalar(r):
     if c < 0.5:
         return r.choice([0.5, 3.25, -1.5, 1e3, 0.0])
     if c < 0.8:
-        return r.choice(["localhost", "", "a b", "ünï", 'q"uote', "#notcomment", "[bracket]", "x = y", "back\\slash"])
+        return r.choice(["localhost", "", "a b", "ünï", 'q"uote', "#notcomment", "[bracket]", "x = y", "back\\slash", "costs $HOME and ${HOME}"])
     return r.choice([True, False])
 
 
@@ -319,7 +319,7 @@ class C20(Check):
         ud = None
         utext = None
         ur = rs["user"]
-        n = r.choice([1, 2, 3, 5, 8, 12] + ([25, 50] if tier == "thorough" else []))
+        n = r.choice([1, 2, 3, 5, 8, 12, 12, 40] + ([80] if tier == "thorough" else []))
         sr = rs["sched"]
         for _ in range(n):
             c = sr.random()
